@@ -12,6 +12,8 @@ func main() {
 	}
 	var err error
 	switch os.Args[1] {
+	case "factgen":
+		err = cmdFactgen(os.Args[2:])
 	case "pure":
 		err = cmdPure(os.Args[2:])
 	default:
